@@ -248,7 +248,9 @@ def real_layer(f, metrics_by_model, dims_by_model, extra_model_kw=None):
                  Dimension(name=dn, type=("categorical" if e == jcol("s0") else "numeric"), sql=jsql_top(e))) for dn, e in uniq]
         mets = [Metric(name=mn, agg=a, sql=(jsql(e) if e else None), filters=[jsql(x, "{model}.") for x in fl] or None) for mn, a, e, fl in metrics_by_model.get(m["name"], [])]
         kw = dict((extra_model_kw or {}).get(m["name"], {}))
-        L.add_model(Model(name=m["name"], table=m["name"], primary_key=model_pk(m), relationships=rels, dimensions=dims, metrics=mets, **kw))
+        from harness import inherit
+        L.add_model(inherit.maybe(Model(name=m["name"], table=m["name"], primary_key=model_pk(m), relationships=rels, dimensions=dims, metrics=mets, **kw),
+                                  (m["name"], [(r_["name"], r_["type"]) for r_ in m["rels"]], [x_[0] for x_ in uniq], [x_[0] for x_ in metrics_by_model.get(m["name"], [])], len(m["rows"])), one_in=5))
     return L
 
 
